@@ -3,7 +3,7 @@
 RESET, FRESH, ORDERED-READ, SORTKEY, PUBLISH-ORDER  (DESIGN §5 C05, C18)
 """
 from ..core import RuleResult
-from ..ir import access_paths, walk, callee_matches
+from ..ir import access_paths, walk, callee_matches, strip
 from .. import anchors
 
 STABLE_SORTS = {'sorted_by', 'sorted_by_key', 'sort_by', 'sort_by_key', 'sort_by_cached_key',
@@ -120,7 +120,7 @@ def rule_reset(ctx):
     f = ctx.facts()
     r = RuleResult('RESET', 'every mutation of the replacement list resets the cached sort order '
                             '(the result never depends on which observers ran in between)')
-    r.floor = 2
+    r.floor = 1
     A = anchors.replace_source(f)
     for b in f.body_list:
         if b.promoted is not None:
@@ -252,7 +252,7 @@ def rule_ordered_read(ctx):
     f = ctx.facts()
     r = RuleResult('ORDERED-READ', 'every order-sensitive reader of the replacement list goes through the cached '
                                    'sorted index (after making it fresh); only whole-value uses bypass it')
-    r.floor = 5
+    r.floor = 3
     A = anchors.replace_source(f)
     info = _group_info(f, A)
     sorters = [root for root, d in info.items() if d['index_writes'] and d['flag_true']]
@@ -499,5 +499,81 @@ def rule_publish_order(ctx):
             if not ok:
                 r.violation('%s:no-flag-check' % s, node.get('s', b.span()), s,
                             'sorter publishes without first loading the flag')
+    r.check_floor()
+    return r
+
+
+# ---------------------------------------------------------------------------------- CLAMP (C05, C17)
+
+def _clamped(e, depth=0):
+    """is this slice bound provably <= len(inner text)?  const 0 | len(..) | min(_, len-derived) | casts/phis thereof"""
+    if depth > 40:
+        return False
+    k = e[0]
+    if k == 'const':
+        return e[1] == 0
+    if k in ('cast', 'ref', 'deref', 'upvar'):
+        return _clamped(e[1], depth + 1)
+    if k == 'phi':
+        return all(_clamped(a, depth + 1) for a in e[1])
+    if k == 'cycle':
+        return True   # the value itself, already accounted for by the other alternatives of the phi
+    if k == 'call':
+        n = e[1].rsplit('::', 1)[-1]
+        if n == 'len':
+            return True
+        if n in ('min', 'clamp'):
+            args = e[2][1:] if n == 'clamp' else e[2]
+            return any(_has_len(a) for a in args) or all(_clamped(a, depth + 1) for a in e[2])
+        if n in ('into', 'from', 'try_into', 'unwrap', 'unwrap_or', 'clone'):
+            return all(_clamped(a, depth + 1) for a in e[2])
+        return False
+    return False
+
+
+def _has_len(e):
+    return any(x[0] == 'call' and x[1].rsplit('::', 1)[-1] == 'len' for x in walk(e))
+
+
+def rule_clamp(ctx):
+    f = ctx.facts()
+    r = RuleResult('CLAMP', 'positions beyond the end are clamped: every bound with which ReplaceSource slices the inner text in source() / '
+                            'rope() is 0, the inner length, or passes through min(_, inner length) — an unclamped cursor panics for '
+                            'replacements that lie beyond the end')
+    r.floor = 4
+    A = anchors.replace_source(f)
+    tr = anchors.trait_path(f, 'Source')
+    bodies = [b for b in f.body_list if b.promoted is None and b.d['kind'] != 'Closure' and b.d.get('impl_adt') == A['adt']
+              and b.d.get('impl_trait') == tr and b.name in ('source', 'rope')]
+    if len(bodies) != 2:
+        raise anchors.AnchorMissing('ReplaceSource::source / rope: %d' % len(bodies))
+    for b in bodies:
+        for pt, t in b.calls():
+            c = t.get('callee')
+            if not c or len(t['args']) < 2:
+                continue
+            n = c['name']
+            is_slice = (n == 'index' and ('str' in t['arg_tys'][0] or 'String' in t['arg_tys'][0]) and 'Range' in t['arg_tys'][1]) or \
+                       (n in ('byte_slice', 'get_byte_slice', 'byte_slice_unchecked', 'get') and 'Range' in t['arg_tys'][1])
+            if not is_slice:
+                continue
+            rng = b.expr_of_operand(t['args'][1])
+            bounds = []
+            for x in strip(rng, through_calls=set()) if False else [rng]:
+                for y in walk(x):
+                    if y[0] == 'agg' and y[2] and 'ops::Range' in y[2]:
+                        bounds = list(zip(y[4], y[5]))
+                        break
+            if not bounds:
+                r.site('%s: slice with a non-literal range' % b.path, t['s'], 'violation')
+                r.violation('%s:range' % b.path, t['s'], b.path, 'slice range is not a range literal (unrecognised idiom)', reason='unrecognised-idiom')
+                continue
+            for name, e in bounds:
+                ok = _clamped(e)
+                r.site('%s: slice bound `%s` is clamped to the inner length' % (b.path, name), t['s'], 'ok' if ok else 'violation')
+                if not ok:
+                    r.violation('%s:%s' % (b.path, name), t['s'], b.path,
+                                'slice bound `%s` of the inner text is not clamped to its length: a replacement that lies beyond the end '
+                                '(in the documented domain) makes %s() panic' % (name, b.name))
     r.check_floor()
     return r
